@@ -389,7 +389,11 @@ class Loader:
                          obj.get('max_utilization'))
 
             trait_list = obj.get('traits', [])
-            traitz, _ = traits.encode(self.trait_codes, trait_list)
+            # A trait no server has reported yet still is a requirement: give
+            # it a code (as create_server does) instead of dropping it.
+            traitz, self.trait_codes = traits.encode(
+                self.trait_codes, trait_list, add_new=True
+            )
             alloc.set_traits(traitz)
 
             for assignment in obj.get('assignments', []):
